@@ -306,6 +306,22 @@ DECLARED = {
 }
 
 
+def _support_molden_coeffs(lp):
+    """What the declared argument for molden._load_helper_coeffs rests on, checked on the AST of the loop: the dictionary
+    `info` is created empty in every iteration (a direct statement of the loop body), it is only filled from lines that
+    were read in this iteration, and info["occup"] is read unconditionally afterwards (KeyError when nothing was read)."""
+    body = lp.body
+    idx_new = next((i for i, st in enumerate(body) if isinstance(st, ast.Assign) and len(st.targets) == 1 and isinstance(st.targets[0], ast.Name) and st.targets[0].id == "info" and isinstance(st.value, ast.Dict) and not st.value.keys), None)
+    idx_fill = next((i for i, st in enumerate(body) if isinstance(st, ast.For) and any(isinstance(n, ast.Subscript) and isinstance(n.ctx, ast.Store) and isinstance(n.value, ast.Name) and n.value.id == "info" for n in ast.walk(st))), None)
+    idx_read = next((i for i, st in enumerate(body) if isinstance(st, ast.Assign) and any(isinstance(n, ast.Subscript) and isinstance(n.ctx, ast.Load) and isinstance(n.value, ast.Name) and n.value.id == "info" and isinstance(n.slice, ast.Constant) and n.slice.value == "occup" for n in ast.walk(st.value))), None)
+    stores_elsewhere = [n for st in body if not isinstance(st, ast.For) for n in ast.walk(st) if isinstance(n, ast.Subscript) and isinstance(n.ctx, ast.Store) and isinstance(n.value, ast.Name) and n.value.id == "info"]
+    ok = idx_new is not None and idx_fill is not None and idx_read is not None and idx_new < idx_fill < idx_read and not stores_elsewhere
+    return ok, f"statement index of `info = {{}}`: {idx_new}, of the key=value loop: {idx_fill}, of the read of info['occup']: {idx_read} (all direct statements of the loop body, in this order)"
+
+
+DECLARED_SUPPORT = {("molden", "_load_helper_coeffs", 0, "True"): _support_molden_coeffs}
+
+
 def job_termination():
     led = Ledger()
     counts = {"consumes": 0, "finite-for": 0, "counted": 0, "declared": 0}
@@ -327,6 +343,9 @@ def job_termination():
             if key is not None:
                 counts["declared"] += 1
                 declared_used.append({"loop": f"{mod.__name__}.{fname} loop {k} `{header[:60]}`", "declared_argument": DECLARED[key]})
+                if key in DECLARED_SUPPORT:
+                    ok, why = DECLARED_SUPPORT[key](lp)
+                    led.record(f"{mod.__name__}.{fname}::loop{k}.decreases.declared-argument-is-supported-by-the-code", "decreases", "discharged" if ok else "refuted", "ast", 0.0, detail=f"{DECLARED[key]}; {why}", witness={"needs": "a file damaged inside a coefficient line after at least one complete orbital header: the same line is pushed back and examined again forever"})
                 continue
             led.record(oname, "decreases", "unknown", "path-analysis", 0.0, detail=f"no termination argument found for `{header[:80]}`: {detail}")
     return {"ledger": led, "loop_counts": counts, "declared": declared_used}
